@@ -1089,6 +1089,15 @@ def _invalid_inputs():
                      ("t=[-0.1,0.2]", {"t": [-0.1, 0.2]}),
                      ("t=[0.3,-0.2]", {"t": [0.3, -0.2]})):
         out.append(("layered:" + name, ("layered", kw)))
+    for name, r in (("r=(-1,1,1)", (-1, 1, 1)), ("r=(1,-2,3)", (1, -2, 3)),
+                    ("r=(1,2,-1e-300)", (1, 2, -1e-300))):
+        out.append(("ellipsoid:" + name, ("ellipsoid", {"r": r})))
+    for name, t in (("t=5.0", 5.0), ("t=[1,2]", [1.0, 2.0]),
+                    ("t=column(3,1)", np.ones((3, 1))),
+                    ("t=[1,2,3,4]", [1.0, 2.0, 3.0, 4.0])):
+        out.append(("translate:" + name, ("translate", {"t": t})))
+    for name in ("generator", "iter", "map"):
+        out.append(("collection-from:" + name, ("iterable", {"how": name})))
     return out
 
 
@@ -1148,10 +1157,38 @@ def _run_invalid(case, ck):
                       else "reject-malformed-centre",
                       lambda: hs.LayeredSphere(**args),
                       "LayeredSphere(%r)" % (kw,))
+    elif kind == "translate":
+        # a translation that is not a 3-vector: refused, or (never) applied
+        # as something else
+        for obj in (good, hs.Spheres([good, hs.Sphere(
+                n=1.5, r=0.5, center=(3, 0, 0))], warn=False)):
+            expect_reject("reject-malformed-translation",
+                          lambda: obj.translated(kw["t"]),
+                          "%s.translated(%r)" % (type(obj).__name__,
+                                                 kw["t"]))
+    elif kind == "iterable":
+        mem = [hs.Sphere(n=1.5, r=0.5, center=(0, 0, 0)),
+               hs.Sphere(n=1.5, r=0.5, center=(0.6, 0, 0)),
+               hs.Sphere(n=1.5, r=0.5, center=(5, 0, 0))]
+        src = {"generator": lambda: (m for m in mem),
+               "iter": lambda: iter(mem),
+               "map": lambda: map(lambda m: m, mem)}[kw["how"]]()
+        with warnings.catch_warnings(record=True) as w:
+            warnings.simplefilter("always")
+            sc = hs.Spheres(src)
+        ck.trans += 1
+        nwarn = sum(1 for x in w if "Overlap" in type(x.message).__name__)
+        ck.true("collection-from-iterable", len(sc.scatterers) == 3 and
+                list(map(tuple, sc.overlaps)) == [(0, 1)] and nwarn == 1,
+                "Spheres(%s of 3 spheres, two of them overlapping): %d "
+                "members, overlaps %r, %d overlap warning(s)" %
+                (kw["how"], len(sc.scatterers), sc.overlaps, nwarn))
+        obs.append("%d:%r:%d" % (len(sc.scatterers), sc.overlaps, nwarn))
     elif kind == "ellipsoid":
         args = {"n": 1.5, "r": (1, 2, 3), "center": (0, 0, 0)}
         args.update(kw)
-        expect_reject("reject-malformed-centre",
+        expect_reject("reject-negative-radius" if "r" in kw else
+                      "reject-malformed-centre",
                       lambda: hs.Ellipsoid(**args), "Ellipsoid(%r)" % (kw,))
     elif kind == "member":
         with warnings.catch_warnings():
